@@ -94,6 +94,18 @@ class Ctx:
         except Exception as ex:
             self.wrong.append(dict(clause=f"{what}: oracle comparison raised {type(ex).__name__}: {ex}", tree=e["tree"]))
 
+    def check_copy(self, A, B, what, ann=True, dev=True):
+        """a copy made through flatten/unflatten (round trip, .to(None), annotation wrapper) must be the same operator:
+        kind, shape, dtype, device, represented matrix (and annotations unless the call adds one)"""
+        try:
+            a, b = op_state(A), op_state(B)
+            diff = [n for n, x, y in zip(("dense matrix", "annotations", "shape", "dtype", "kind", "device"), a, b) if x != y and (ann or n != "annotations") and (dev or n != "device")]
+            if diff:
+                self.wrong.append(dict(clause=f"{what} differs from the operator it copies in: {', '.join(diff)}", operator_kind=type(A).__name__,
+                                       before=str((a[2], a[3], a[1])), after=str((b[2], b[3], b[1]))))
+        except Exception as ex:
+            self.wrong.append(dict(clause=f"{what}: comparison raised {type(ex).__name__}: {ex}", operator_kind=type(A).__name__))
+
     def track(self, a, label):
         self.tracked.append((a, snap(a), label))
         return a
@@ -285,12 +297,22 @@ def _mk_alphabet():
         if A is None:
             return None
         w = c.rnd.choice([cola.PSD, cola.SelfAdjoint, cola.Unitary, cola.Stiefel])
-        return lambda: w(A)
+
+        def call():
+            B = w(A)
+            c.check_copy(A, B, f"{w.__name__}(A)", ann=False)
+            return B
+        return call
 
     @op("to_none")
     def _(c):
         A, _ = c.pick()
-        return lambda: A.to(None)
+
+        def call():
+            B = A.to(None)
+            c.check_copy(A, B, "A.to(None)", dev=False)     # the device is what a move changes
+            return B
+        return call
 
     @op("to_device")      # only in the alphabet when the recorded finding identity_to_mutates_self is gone
     def _(c):
@@ -310,7 +332,9 @@ def _mk_alphabet():
 
         def call():
             vals, un = A.flatten()
-            return un(vals)
+            B = un(vals)
+            c.check_copy(A, B, "unflatten(flatten(A))")
+            return B
         return call
 
     @op("getitem")
